@@ -106,7 +106,13 @@ PATHS = [b"/", b"/a", b"/a/b", b"/a_b/C9/d", b"/org/freedesktop/DBus", b"/x" * 9
 SIGS = [b"", b"y", b"s", b"ai", b"a{sv}", b"(ii)", b"a(ya{sv})", b"v", b"aaaa(tt)"]
 BAD_STRINGS = [b"a\x00b", b"\x00", b"abc\x00"]
 BAD_PATHS = [b"", b"a", b"/a/", b"//", b"/a-b", "/é".encode(), b"/a//b", b"a/b", b"/a b"]
-BAD_SIGS = [b"a", b"(", b"{sv}", b"()", b"a{vs}", b"z", b"a{s}", b"y" * 256]
+# dict entries of the wrong shape: 3 / 4 / 1 / 0 types, a non-basic key, unclosed, an entry that is not the element of an array
+# (bare, as a struct member, as the value of another entry), inside other containers. Their lengths differ from every entry of
+# SIGS, so the same-length substitutions of the C03 corruption class sig-invalid can never make one.
+DICT_BAD_SIGS = [b"a{sss}", b"a{ssss}", b"a{s(y)ay}", b"a{sayy}", b"a{yv(y)}", b"a{}", b"a{(y)s}", b"a{ays}", b"a{ss", b"a{sss", b"{ss}", b"{sss}",
+                 b"a{s{ss}}", b"({ss})", b"(y{ss})", b"a({ss})", b"a{sa{sss}}", b"(ya{sss})", b"aa{sss}", b"ya{sss}", b"a{sss}y", b"a{ss}{ss}",
+                 b"a{ss}}", b"a{{ss}s}"]
+BAD_SIGS = [b"a", b"(", b"{sv}", b"()", b"a{vs}", b"z", b"a{s}", b"y" * 256] + DICT_BAD_SIGS
 
 
 def gen_base(r, c, bad=None):
@@ -362,6 +368,65 @@ def map_leaves(t, f):
     return ("v", t[1], map_leaves(t[2], f))
 
 
+def count_tag(toks, tag):
+    """number of base leaves with this tag in a value's tokens"""
+    n = [0]
+
+    def f(t, payload):
+        if t == tag:
+            n[0] += 1
+        return payload
+    map_leaves(parse_tokens(list(toks), 0)[0], f)
+    return n[0]
+
+
+def replace_leaf(toks, tag, which, payload):
+    """the tokens with the payload of the which-th leaf (wire order) of this tag replaced"""
+    n = [0]
+
+    def f(t, old):
+        if t == tag:
+            n[0] += 1
+            if n[0] - 1 == which:
+                return payload
+        return old
+    return print_tree(map_leaves(parse_tokens(list(toks), 0)[0], f), False)
+
+
+def _variant_positions(toks):
+    """indices of the `v` tokens that open a variant (not an element-type / signature operand)"""
+    out = []
+
+    def walk(pos):
+        tag = toks[pos]
+        if tag == "a":
+            n = int(toks[pos + 2])
+            pos += 3
+            for _ in range(n):
+                pos = walk(pos)
+            return pos
+        if tag == "r":
+            n = int(toks[pos + 1])
+            pos += 2
+            for _ in range(n):
+                pos = walk(pos)
+            return pos
+        if tag == "e":
+            n = int(toks[pos + 3])
+            pos += 4
+            for _ in range(2 * n):
+                pos = walk(pos)
+            return pos
+        if tag == "v":
+            out.append(pos)
+            return walk(pos + 2)
+        return pos + 2
+    pos = 0
+    while pos < len(toks):
+        pos = walk(pos)
+    return out
+
+
 def renumber_fds(toks, modulo):
     """descriptor leaves become wire indices 0,1,2.. (mod modulo) in order"""
     tree, _ = parse_tokens(list(toks), 0)
@@ -532,7 +597,7 @@ def layout(be, off, toks):
 
 SIGS_BY_ALIGN = {1: ["y", "g", "v"], 2: ["n", "q"], 4: ["u", "i", "b", "s", "o", "ay", "as", "a{sv}"], 8: ["t", "x", "d", "(yy)", "(t)"]}
 CORRUPTION_CLASSES = ["pad-nonzero", "len-1", "len+1", "len-4", "len+4", "len-8", "len+8", "len=2^26+1", "bool=2", "bool-other", "nul-in-string",
-                      "terminator-nonzero", "path-invalid", "sig-invalid", "fd-index=count", "fd-index=count+1", "fd-index=2^31", "fd-index=2^32-1", "siglen+-1", "vsig-same-align", "vsig-other-align", "vsig-two-types", "vsig-empty", "vsig-invalid",
+                      "terminator-nonzero", "path-invalid", "sig-invalid", "sig-dict-entry", "fd-index=count", "fd-index=count+1", "fd-index=2^31", "fd-index=2^32-1", "siglen+-1", "vsig-same-align", "vsig-other-align", "vsig-two-types", "vsig-empty", "vsig-invalid", "vsig-dict-entry",
                       "nonzero", "bump", "len", "lenoff", "trunc", "utf8", "extend"]
 
 
@@ -657,6 +722,20 @@ def aimed_corruptions(r, be, off, toks, enc, extra=6, all_padding=False, nfds=0)
                 splice(kind, m, b"")
             else:
                 splice(kind, m, r.choice([b"a", b"(", b"z", b"{sv}", b"()", b"a{vs}", b"(y", cur.encode() + b")"]))
+    # ---- a signature leaf / a variant's signature replaced by a dict entry of the wrong shape (DICT_BAD_SIGS). The length of the text
+    # changes, so the value is encoded again by Layout (used only when it reproduced the specification's bytes of the original): every
+    # length field and padding byte around the leaf stays right and the signature text is the single fault
+    if marks:
+        toks = list(toks)
+        ng = count_tag(toks, "g")
+        if ng:
+            bad = r.choice(DICT_BAD_SIGS)
+            out.append(("sig-dict-entry", layout(be, off, replace_leaf(toks, "g", r.randrange(ng), hx(bad)))[0]))
+        vpos = _variant_positions(toks)
+        if vpos:
+            t2 = list(toks)
+            t2[r.choice(vpos) + 1] = r.choice(DICT_BAD_SIGS).decode()
+            out.append(("vsig-dict-entry", layout(be, off, t2)[0]))
     # ---- the untargeted ones
     for kind, b in corruptions(r, enc, limit=extra):
         out.append((kind.split("@")[0], b))
